@@ -382,6 +382,7 @@ impl LogInnerManager {
         let (index_dto, file_index_len, pop_index_count) =
             self.get_file_index_by_log_index(end_index)?;
         let empty_data = vec![0u8, 1];
+        let removed_data_end = self.data_cursor;
         if pop_index_count > 0 {
             for _i in 0..pop_index_count {
                 self.indexs.pop();
@@ -390,7 +391,9 @@ impl LogInnerManager {
             self.index_file
                 .seek(SeekFrom::Start(self.index_cursor))
                 .await?;
-            self.index_file.write_all(&empty_data).await?;
+            // wipe every dropped index entry, a later shorter entry must not expose their bytes
+            let empty_index = vec![0u8; std::cmp::max(file_index_len as usize, empty_data.len())];
+            self.index_file.write_all(&empty_index).await?;
             self.index_file
                 .seek(SeekFrom::Start(self.index_cursor))
                 .await?;
@@ -410,7 +413,18 @@ impl LogInnerManager {
         self.data_file
             .seek(SeekFrom::Start(self.data_cursor))
             .await?;
-        self.data_file.write_all(&empty_data).await?;
+        // wipe the whole removed suffix: records appended later may be shorter than the removed
+        // ones, and whatever follows them is parsed as records when the file is opened again
+        let mut remain = std::cmp::max(
+            removed_data_end.saturating_sub(self.data_cursor),
+            empty_data.len() as u64,
+        );
+        let zeros = vec![0u8; std::cmp::min(remain, LOG_DATA_BUF_SIZE) as usize];
+        while remain > 0 {
+            let n = std::cmp::min(remain, zeros.len() as u64) as usize;
+            self.data_file.write_all(&zeros[..n]).await?;
+            remain -= n as u64;
+        }
         self.data_file
             .seek(SeekFrom::Start(self.data_cursor))
             .await?;
